@@ -220,6 +220,26 @@ func (generator *ConverterGenerator) constructorArgs(context Context, converter 
 		return assignment.Value.Argument != nil
 	})
 
+	// the arguments are printed in the order the constructor declares them, which is not
+	// necessarily the order of its assignments (a promoted `range(min, max)` can assign max first)
+	positions := make(map[string]int, len(builder.Constructor.Args))
+	for position, arg := range builder.Constructor.Args {
+		positions[arg.Name] = position
+	}
+	positionOf := func(assignment ast.Assignment) int {
+		if assignment.Value.Argument == nil {
+			return len(builder.Constructor.Args)
+		}
+		if position, declared := positions[assignment.Value.Argument.Name]; declared {
+			return position
+		}
+
+		return len(builder.Constructor.Args)
+	}
+	sort.SliceStable(argAssignments, func(a, b int) bool {
+		return positionOf(argAssignments[a]) < positionOf(argAssignments[b])
+	})
+
 	args := make([]ArgumentMapping, 0, len(argAssignments))
 	for i, assignment := range argAssignments {
 		valuePath := converter.inputRootPath().Append(assignment.Path)
